@@ -16,7 +16,7 @@ def pool(chk, tier):
     E = type(realcode.runtime_instance()).EmptyCell
     ints = [0, 1, -1, 2, 3, 5, 9, 10, 120, -5, 2 ** 53, 2 ** 53 + 1, 2 ** 70, 2 ** 70 + 1, -2 ** 70]
     flts = [0.5, -0.5, 1.2, 1.5, 1.25, 0.1 + 0.2, 0.3, 0.1, 2.0, 5.0, -1.5, 1e16, float(2 ** 53), 2.0 ** 70, -0.0,
-            9.999999999999999e22, 1e-7, 120.5]
+            9.999999999999999e22, 1e-7, 120.5, 2.05, 2.1, 0.01, 0.1, 1.005, 10.0625, 3.0405]
     texts = ['', 'a', 'A', 'b', 'ab', 'abc', 'B', 'Z', '5', '10', '9', '-5', '0', '1.5', '1.25', ' 7 ', '1e2', '+3',
              'нет', '1.50', '5.0', '.5', '5.', 'e5', '1e', '--1', '12a', 'TRUE',
              'nan', 'NaN', '-nan', 'inf', '-inf', 'Infinity', '1_0', '٣', ' ', '  ', '\t', ' a']     # float() takes these for numbers (NaN breaks every law); they are texts
@@ -144,6 +144,8 @@ def literal_of(v):
         return 'TRUE' if v else 'FALSE'
     if isinstance(v, int) and 0 <= v < 10 ** 15:
         return str(v)
+    if isinstance(v, float) and v >= 0 and 'e' not in repr(v) and 'n' not in repr(v):
+        return repr(v)            # a plain decimal literal (2.05, 0.01, 1.25): the double nearest to its text is the same float
     if isinstance(v, str) and '"' not in v and "'" not in v and '\\' not in v and '?' not in v and '*' not in v:
         return '"%s"' % v
     return None
@@ -159,7 +161,7 @@ def end_to_end(chk, vals, encs, tier):
     where = {}
     for k, (kind, v) in enumerate(vals):
         where.setdefault((type(v).__name__, repr(v)), k)
-    for a, b in (('10', '9'), ('9', '10'), ('5', '10'), ('-5', '9'), ('1.5', '1.25'), ('10', 9), (10, '9'), ('abc', 'B'), ('5', 5), ('a', 'A')):
+    for a, b in ((2.05, 2.1), (0.01, 0.1), (1.005, 1.5), (2.5, 2.05), (10.0625, 10.625), ('10', '9'), ('9', '10'), ('5', '10'), ('-5', '9'), ('1.5', '1.25'), ('10', 9), (10, '9'), ('abc', 'B'), ('5', 5), ('a', 'A')):
         ka, kb = where.get((type(a).__name__, repr(a))), where.get((type(b).__name__, repr(b)))
         if ka is not None and kb is not None:
             for _ in range(3):
@@ -191,6 +193,16 @@ def end_to_end(chk, vals, encs, tier):
     blank_values = {k: None for k in values}
     n_cells = len(pairs)
     outs_ov = realcode.eval_formulas(formulas[:n_cells], blank_values, overrides=ov)
+    # overrides on top of cells that all hold 99: a blank operand is supplied by an override WITHOUT a value
+    full_values = {k: 99 for k in values}
+    outs_ov2 = realcode.eval_formulas(formulas[:n_cells], full_values, overrides=dict(values))
+    for k in range(n_cells):
+        chk.count('e2e:cells:override-over-values')
+        if outs_ov2[k] != outs[k]:
+            i, j, op, _ = meta[k]
+            chk.violation({'via': 'end-to-end', 'why': 'operands supplied by overrides on top of other values (a blank by an override without a value) compare differently than the '
+                                                       'same operands held by the workbook', 'formula': formulas[k], 'left': repr(vals[i][1]), 'right': repr(vals[j][1]),
+                           'overridden': outs_ov2[k], 'workbook': outs[k], 'stream': 'route-independence'})
     inst = realcode.runtime_instance()
     for k, row in twin.items():
         chk.count('e2e:literal-vs-cell')
